@@ -512,6 +512,23 @@ fn execute(plan: &Value, w: &World, cfg: &Cfg, slot: usize) -> Outcome {
                     push(class, format!("header {}: {:?} expected {} time(s), received {}; received headers: {:?}", n, String::from_utf8_lossy(val), k, got, r.headers.iter().map(|(a, b)| format!("{}: {}", a, String::from_utf8_lossy(b))).collect::<Vec<_>>()));
                 }
             }
+            // Field lines with the same name combine, in order, into one field value (RFC 9110
+            // 5.3): the values given for one name must arrive in the order they were given in
+            // (checked per name, as a subsequence; the bearer value's place is not prescribed).
+            let mut by_name: BTreeMap<String, Vec<Vec<u8>>> = BTreeMap::new();
+            for h in &headers {
+                let (n, val) = plan::header_expected(h);
+                by_name.entry(n.to_ascii_lowercase()).or_default().push(val.into_bytes());
+            }
+            for (n, seq) in by_name.iter().filter(|(_, s)| s.len() > 1) {
+                let got: Vec<&Vec<u8>> = r.headers.iter().filter(|(hn, _)| hn.to_ascii_lowercase() == *n).map(|(_, hv)| hv).collect();
+                let mut it = got.iter();
+                let in_order = seq.iter().all(|w| it.any(|g| *g == w));
+                let all_there = seq.iter().all(|w| got.iter().any(|g| *g == w));
+                if all_there && !in_order {
+                    push("request-wrong:header-order", format!("the values given for {} arrive in another order: given {:?}, received {:?}", n, seq.iter().map(|v| String::from_utf8_lossy(v).to_string()).collect::<Vec<_>>(), got.iter().map(|v| String::from_utf8_lossy(v).to_string()).collect::<Vec<_>>()));
+                }
+            }
             if plan["authorization"].is_null() && r.headers.iter().any(|(hn, _)| hn.eq_ignore_ascii_case("authorization")) && !headers.iter().any(|h| plan::header_expected(h).0.eq_ignore_ascii_case("authorization")) {
                 push("request-wrong:unexpected-authorization", "an Authorization header was sent without --authorization".into());
             }
